@@ -480,6 +480,10 @@ func runC02(c *Ctx) {
 		}
 	}
 
+	// ---------------------------------------------------------------- R10
+	c.rule("R10", "every exchange-path function passes its own context, unchanged, to the inner exchange (no added deadline between the caller and the wait)", 6)
+	checkCallerCtxPassedOn(c, p.funcsIn(relTransport, relUpstream))
+
 	// ---------------------------------------------------------------- R8
 	c.rule("R8", "the stream frame reader takes bytes from the connection only through io.ReadFull (no reply bytes are dropped at EOF)", 1)
 	checkFrameReaderReadFull(c)
